@@ -399,6 +399,10 @@ class P:
 
 
 MUTANTS = [
+    Mutant('wall-masks-computed-before-the-broadcast', PL, 'PathLossMetisPS7._calc_PS7_path_loss_dB_same_floor',
+           [('regex', r'(        \[_, num_walls\] = np\.broadcast_arrays\(d, num_walls\)\n)', r'        LOS_index = num_walls == 0\n        NLOS_index = ~LOS_index\n\1'),
+            ('regex', r'(assert isinstance\(num_walls, np\.ndarray\)\n)        LOS_index = num_walls == 0\n        NLOS_index = ~LOS_index\n', r'\1')],
+           r'C13\.j:PathLossMetisPS7\._calc_PS7_path_loss_dB_same_floor:stale-mask'),
     Mutant('linear-loss-passed-to-the-dB-inverse-query', PL, 'PathLossBase.which_distance',
            [('replace', 'self.which_distance_dB(-conversion.linear2dB(pl))', 'self.which_distance_dB(-pl)')], r'C13\.[ci]:PathLossBase\.which_distance'),
     Mutant('linear-query-returns-the-level', PL, 'PathLossBase.calc_path_loss',
